@@ -131,7 +131,7 @@ def expected_calls(case):
     if n == "create":
         i = None if op["scheme"] is None else G.owner_index(backends, "playlists", op["scheme"])
         return None if i is None else [[i, "create", {"name": op["pname"]}]]
-    if n in ("construct", "get_uri_schemes"):
+    if n in ("construct", "get_uri_schemes", "core_schemes"):
         return []
     if n in MIXER_OPS:
         if case.get("mixer") is None:
@@ -298,6 +298,11 @@ def check_case(chk, case, obs, I, salt=0, two_run=True):
                 r = answer_of(case, calls[-1][0], calls[-1][1])
                 fail("bad_answer_discarded", {"call": name, "answer": answer_class(name, r)},
                      f"core.{name} returned {value} for the backend answer {r}; expected {want}")
+    elif name in ("get_uri_schemes", "core_schemes"):
+        flag = "playlists" if name == "get_uri_schemes" else None
+        want = sorted(s for b in backends if b.get("info_ok", True) and (flag is None or b[flag]) for s in b["schemes"])
+        if value != ["strs", want]:
+            fail("scheme_listing", {"call": name}, f"core.{name} returned {value}, registered: {want}")
     # ---- T6 mixer_isolated
     elif name in MIXER_OPS:
         if case.get("mixer") is None or not obs["log"]:
